@@ -13,9 +13,18 @@ import random
 from .. import memnet, tlc, util
 from .. import sched as S
 
+STRADDLE_CFG = """INIT SInit
+NEXT SNext
+CONSTANTS MaxLen = 1
+  Lifetime = %d
+  Linger = %d
+CHECK_DEADLOCK FALSE
+"""
 GEN_CFG = """INIT Init
 NEXT Next
 CONSTANTS MaxLen = %d
+  Lifetime = 0
+  Linger = 0
 CHECK_DEADLOCK FALSE
 """
 MC_CFG = """SPECIFICATION Spec
@@ -70,7 +79,8 @@ def make_target():
     return Source
 
 
-def run_scripts(scripts, servertype, settings):
+def run_scripts(scripts, servertype, settings, unit=1):
+    """unit: how many time units of the scripts and of the recorded traces make one second (10: tenths of a second)"""
     import Pyro5.api as P
     from Pyro5 import config, errors
     lifetime, linger, streaming = settings
@@ -93,7 +103,7 @@ def run_scripts(scripts, servertype, settings):
         for script in scripts:
             sc.set_budget(30000)
             d.streaming_responses.clear()
-            tr = [{"e": "cfg", "lifetime": lifetime, "linger": linger, "streaming": streaming, "server": servertype}]
+            tr = [{"e": "cfg", "lifetime": lifetime * unit, "linger": linger * unit, "streaming": streaming, "server": servertype}]
             proxies = {}
             conn = {}          # proxy -> connection incarnation (0 = not connected)
             ninc = [0]
@@ -102,7 +112,7 @@ def run_scripts(scripts, servertype, settings):
             nstream = [0]
 
             def now():
-                return int(sc.now)
+                return int(round(sc.now * unit))
 
             def hk():
                 if implicit_hk:
@@ -237,7 +247,7 @@ def run_scripts(scripts, servertype, settings):
                         except Exception as x:
                             tr.append({"e": "Housekeep", "now": now(), "failed": True, "exc": type(x).__name__})
                     elif a == "tick":
-                        sc.sleep(float(step["dt"]))
+                        sc.sleep(float(step["dt"]) / unit)
                 sc.quiesce()
                 tr.append({"e": "End", "size": len(d.streaming_responses)})
             except S.Hang:
@@ -395,6 +405,14 @@ def run(ctx):
                 js = js[:40]
             traces += run_scripts(js, st, sett)
             metas += [{"script": s, "settings": sett, "server": st} for s in js]
+    # housekeeping shortly before and shortly after a deadline (time in tenths of a second)
+    for sett in ((0, 4, True), (8, 0, True), (8, 4, True)):
+        sts = tlc.gen(ctx, "Gen_Streams", cfg_text=STRADDLE_CFG % (sett[0], sett[1]))
+        if len(sts) < 8:
+            raise util.MachineryError("straddle scripts incomplete")
+        for st in ("thread", "multiplex"):
+            traces += run_scripts(sts, st, sett, unit=10)
+            metas += [{"script": s, "settings": sett, "server": st, "unit": 10} for s in sts]
     # a fetch in flight while the stream is closed over another connection / expires / housekeeping runs (thread server)
     for sett, variants in (((0, 0, True), ["close_other_conn", "housekeep"]), ((0, 4, True), ["close_other_conn", "housekeep"]),
                            ((8, 4, True), ["close_other_conn", "expire", "housekeep"]), ((8, 0, True), ["expire", "close_other_conn"])):
@@ -427,7 +445,7 @@ def replay(ctx, path):
     bad = 0
     for case in rep["cases"]:
         m = case["scenario"]
-        tr = run_overlap([m["overlap"]], tuple(m["settings"]))[0] if m.get("overlap") else run_scripts([m["script"]], m["server"], tuple(m["settings"]))[0]
+        tr = run_overlap([m["overlap"]], tuple(m["settings"]))[0] if m.get("overlap") else run_scripts([m["script"]], m["server"], tuple(m["settings"]), unit=m.get("unit", 1))[0]
         v, _ = tlc.validate(ctx, "Trace_Streams", [tr], cfg="Trace_Streams.cfg")
         print("replay:", m["settings"], m["server"], "->", v[0] or "accepted")
         for e in tr:
